@@ -2,7 +2,7 @@
   Model/Interp.lean — the scenario (EVL) interpreter over the model: one operation per
   line in, one observation line out.  Total: an unknown or ill-typed line yields `bad-op`.
 -/
-import EnvVerif.Model.Signature
+import EnvVerif.Model.Expr
 import EnvVerif.Model.Conc
 import EnvVerif.Model.Sha256
 namespace EnvVerif
@@ -149,6 +149,44 @@ def ZZ := toyDeflate
 
 def showList (es : List Env) : String := " ".intercalate (es.map fun e => dshort e.digest)
 
+
+def optHex (s : String) : Option (Option Bytes) :=
+  if s == "-" then some Option.none else (bytesOfHex s).map some
+
+def parseIdent (s : String) : Option Ident :=
+  match s.splitOn ":" with
+  | ["k", n] => n.toNat?.map Ident.known
+  | ["n", hx] => (bytesOfHex hx).map Ident.named
+  | _ => Option.none
+
+def showIdent : Ident → String
+  | .known v => "k:" ++ toString v
+  | .named n => "n:" ++ hexOfBytes n
+
+def parseInt? (s : String) : Option Int :=
+  if s.startsWith "-" then (s.drop 1).toNat?.map fun n => -(n : Int) else s.toNat?.map fun n => (n : Int)
+
+def showOptHex : Option Bytes → String
+  | some b => hexOfBytes b
+  | Option.none => "-"
+
+def showResList (r : Res (List Env)) : String :=
+  match r with
+  | .ok l => "[" ++ showList l ++ "]"
+  | .err x => "err " ++ x
+  | .panic x => "panic " ++ x
+
+/-- parameters `k:1=r3,n:6162=r4` -/
+def parseParams (r : Regs) (s : String) : Option (List (Ident × Env)) :=
+  if s == "-" then some [] else
+  (s.splitOn ",").mapM fun kv =>
+    match kv.splitOn "=" with
+    | [k, v] => do let i ← parseIdent k; let e ← r.env v; pure (i, e)
+    | _ => Option.none
+
+def buildExpression (f : Ident) (ps : List (Ident × Env)) : Res Expression :=
+  ps.foldl (fun acc pv => acc.bind fun x => Expression.withParameter H x pv.1 pv.2) (.ok (Expression.new H f))
+
 /-- the idealised signature scheme of a scenario: exactly the registered triples verify -/
 def tableSig (facts : List String) : SigScheme where
   verify key sig msg := facts.contains ("sig " ++ toString key ++ " " ++ hexOfBytes sig.enc ++ " " ++ dhex msg)
@@ -237,6 +275,52 @@ def evalAssign (facts : List String) (r : Regs) (args : List String) : Option Va
   | ["miscompress", e, other] => do
     let e ← r.env e; let other ← r.env other
     pure (.env (.compressed (compressedOf ZZ (encode other)) e.digest))
+  | ["add_salt_instance", e, hx] => do
+    let e ← r.env e; let b ← bytesOfHex hx
+    pure (.ofRes (addSaltInstance H e b))
+  | ["add_salt_with_len", e, n, hx] => do
+    let e ← r.env e; let n ← n.toNat?; let b ← bytesOfHex hx
+    pure (.ofRes (addSaltWithLen H e n (fun _ => b)))
+  | ["add_salted", e, p, o, hx] => do
+    let e ← r.env e; let p ← r.env p; let o ← r.env o; let s ← optHex hx
+    pure (.ofRes (addAssertionSalted H e p o s))
+  | ["add_type", e, t] => do
+    let e ← r.env e; let t ← r.env t
+    pure (.ofRes (addType H e t))
+  | ["add_attachment", e, payload, v, c] => do
+    let e ← r.env e; let pl ← r.env payload; let v ← bytesOfHex v; let c ← optHex c
+    pure (.ofRes (addAttachment H e pl v c))
+  | ["new_attachment", payload, v, c] => do
+    let pl ← r.env payload; let v ← bytesOfHex v; let c ← optHex c
+    pure (.ofRes (newAttachment H pl v c))
+  | ["get_type", e] => do
+    let e ← r.env e
+    pure (.ofRes (getType H e))
+  | ["attachment1", e, v, c] => do
+    let e ← r.env e; let v ← optHex v; let c ← optHex c
+    pure (.ofRes (attachmentWith H e v c))
+  | ["mk_expression", f, ps] => do
+    let f ← parseIdent f; let ps ← parseParams r ps
+    pure (.ofRes ((buildExpression f ps).bind fun x => .ok x.envelope))
+  | ["mk_request", id, f, ps, note, date] => do
+    let id ← bytesOfHex id; let f ← parseIdent f; let ps ← parseParams r ps
+    let note ← bytesOfHex (if note == "-" then "" else note)
+    let date ← (if date == "-" then some Option.none else (parseInt? date).map some)
+    pure (.ofRes ((buildExpression f ps).bind fun x => Request.toEnvelope H ⟨x, id, note, date⟩))
+  | ["mk_response", kind, id, body] => do
+    let body ← r.env body
+    let id? ← optHex id
+    if kind == "success" then
+      match id? with
+      | some id => pure (.ofRes (Response.toEnvelope H (.success id body)))
+      | Option.none => Option.none
+    else if kind == "failure" then pure (.ofRes (Response.toEnvelope H (.failure id? body)))
+    else Option.none
+  | ["mk_event", id, content, note, date] => do
+    let id ← bytesOfHex id; let content ← bytesOfHex content
+    let note ← bytesOfHex (if note == "-" then "" else note)
+    let date ← (if date == "-" then some Option.none else (parseInt? date).map some)
+    pure (.ofRes (Event.toEnvelope H ⟨content, id, note, date⟩))
   | ["add_sig", e, sig] => do
     let e ← r.env e; let sg ← r.env sig
     match sg with
@@ -306,6 +390,49 @@ def evalObs (facts : List String) (r : Regs) (args : List String) : Option Strin
   | ["confirm", e, ts, p] => do
     let e ← r.env e; let ts ← envs r ts; let p ← r.env p
     pure (toString (confirmContainsSet e (ts.map Env.digest) p))
+  | ["types", e] => do
+    let e ← r.env e
+    pure (showResList (types H e))
+  | ["has_type", e, t] => do
+    let e ← r.env e; let t ← r.env t
+    pure (match hasTypeEnvelope H e t with | .ok b => toString b | .err x => "err " ++ x | .panic x => "panic " ++ x)
+  | ["attachments", e, v, c] => do
+    let e ← r.env e; let v ← optHex v; let c ← optHex c
+    pure (showResList (attachmentsWith H e v c))
+  | ["validate_attachment", a] => do
+    let a ← r.env a
+    pure (match validateAttachment H a with | .ok _ => "ok" | .err x => "err " ++ x | .panic x => "panic " ++ x)
+  | ["attachment_fields", a] => do
+    let a ← r.env a
+    pure (match attachmentPayload a, attachmentVendor H a, attachmentConformsTo H a with
+      | .ok p, .ok v, .ok c => "payload=" ++ dshort p.digest ++ " vendor=" ++ hexOfBytes v ++ " conf=" ++ showOptHex c
+      | _, _, _ => "err")
+  | ["parse_expression", e, expected] => do
+    let e ← r.env e
+    let ex ← (if expected == "-" then some Option.none else (parseIdent expected).map some)
+    pure (match Expression.parseExpecting e ex with
+      | .ok x => "ok fn=" ++ showIdent x.function
+      | .err x => "err " ++ x
+      | .panic x => "panic " ++ x)
+  | ["parse_request", e] => do
+    let e ← r.env e
+    pure (match Request.parse H e Option.none with
+      | .ok q => "ok id=" ++ hexOfBytes q.id ++ " fn=" ++ showIdent q.body.function ++ " body=" ++ dshort q.body.envelope.digest ++ " note=" ++ hexOfBytes q.note ++ " date=" ++ (match q.date with | some d => toString d | Option.none => "-")
+      | .err x => "err " ++ x
+      | .panic x => "panic " ++ x)
+  | ["parse_response", e] => do
+    let e ← r.env e
+    pure (match Response.parse H e with
+      | .ok (.success id res) => "ok success id=" ++ hexOfBytes id ++ " result=" ++ dshort res.digest
+      | .ok (.failure id er) => "ok failure id=" ++ showOptHex id ++ " error=" ++ dshort er.digest
+      | .err x => "err " ++ x
+      | .panic x => "panic " ++ x)
+  | ["parse_event", e] => do
+    let e ← r.env e
+    pure (match Event.parse H e with
+      | .ok q => "ok id=" ++ hexOfBytes q.id ++ " content=" ++ hexOfBytes q.content ++ " note=" ++ hexOfBytes q.note ++ " date=" ++ (match q.date with | some d => toString d | Option.none => "-")
+      | .err x => "err " ++ x
+      | .panic x => "panic " ++ x)
   | ["has_sig", e, kid] => do
     let e ← r.env e; let k ← kid.toNat?
     pure (match hasSignatureFromReturningMetadata H (tableSig facts) k e with
